@@ -8,8 +8,12 @@ import (
 
 // Spec is one group of targets (specs/<Group>.json); it produces Dec<Group>.v.
 type Spec struct {
-	Group   string    `json:"group"`
-	Doc     string    `json:"doc"`
+	Group string `json:"group"`
+	Doc   string `json:"doc"`
+	// PkgDir: directory of the Go package relative to the repository root ("" = package sarama; "mocks").
+	PkgDir string `json:"pkgdir"`
+	// Imports: extra `From SV Require Import …` modules of the generated file (e.g. "Gen.DecTypes2").
+	Imports []string  `json:"imports"`
 	Targets []*Target `json:"targets"`
 }
 
@@ -21,6 +25,8 @@ type Target struct {
 	Doc  string `json:"doc"`
 
 	Slice *Slice `json:"slice"` // translate only these statements
+	// Closure: translate the n-th function literal (source order, 0-based) of the function instead of the function.
+	Closure *int `json:"closure"`
 
 	// IdealInt: + - * on Go's platform `int` are emitted without wrap64 (assumption: no overflow of int in
 	// this function; recorded in the generated header and in the evidence).
@@ -38,6 +44,11 @@ type Target struct {
 	Ignore      []string    `json:"ignore"` // callee texts of calls without modelled effect (locks, logging, metrics)
 	Calls       []*CallSpec `json:"calls"`
 	Emits       []*Emit     `json:"emits"`
+	// AssignEmits: assignments whose left-hand side (canonical text) is listed become actions:
+	// $0 = the translated right-hand side, $k = the translated index when the place is an index expression.
+	AssignEmits []*Emit `json:"assign_emits"`
+	// Maps: Gallina map types whose places may be indexed, stored into, deleted from and ranged over.
+	Maps []*MapSpec `json:"maps"`
 	// ActionType: Gallina type of the emitted actions (required when Emits is not empty).
 	ActionType string `json:"action_type"`
 	// TypeSwitch: how `switch x := e.(type)` cases map to constructors of e's Gallina type.
@@ -91,7 +102,10 @@ type Atom struct {
 
 // CallSpec maps calls by callee text; $0,$1,… are the translated arguments, $recv is not available.
 type CallSpec struct {
-	Go    string   `json:"go"`
+	Go string `json:"go"`
+	// Emit: the call also appends this action ($i = arguments); such a call may only be a statement or the whole
+	// right-hand side of an assignment.
+	Emit  string   `json:"emit"`
 	Term  string   `json:"term"`
 	Type  string   `json:"type"`
 	Terms []string `json:"terms"`
@@ -99,6 +113,19 @@ type CallSpec struct {
 }
 
 // Emit maps a call statement (by callee text) or a channel send (Go = "<chan text> <-") to an action.
+// MapSpec describes a Gallina type modelling a Go map (functions of coq/Gen/DecTypes2.v).
+type MapSpec struct {
+	Type    string `json:"type"`     // Gallina type of the map, e.g. "smap Z"
+	Key     string `json:"key"`      // Gallina type of keys
+	Elem    string `json:"elem"`     // Gallina type of stored values
+	Get     string `json:"get"`      // m[k]        ↦ (Get m k) : GetType
+	GetType string `json:"get_type"` // e.g. "Z" (zero default) or "option string" (pointer-valued map)
+	Has     string `json:"has"`      // _, ok := m[k] ↦ (Has m k) : bool
+	Set     string `json:"set"`      // m[k] = v    ↦ (Set m k v)
+	Del     string `json:"del"`      // delete(m,k) ↦ (Del m k)
+	Items   string `json:"items"`    // range m     ↦ over (Items m) : list (Key * Elem)
+}
+
 type Emit struct {
 	Go   string `json:"go"`
 	Term string `json:"term"` // $0,$1,… = translated arguments (for a send: $0 = the value)
@@ -133,7 +160,11 @@ func loadSpec(path string) (*Spec, error) {
 			return nil, fmt.Errorf("%s: duplicate target name %s", path, t.Name)
 		}
 		seen[t.Name] = true
-		if len(t.Emits) > 0 && t.ActionType == "" {
+		hasEmit := len(t.Emits) > 0 || len(t.AssignEmits) > 0
+		for _, c := range t.Calls {
+			hasEmit = hasEmit || c.Emit != ""
+		}
+		if hasEmit && t.ActionType == "" {
 			return nil, fmt.Errorf("%s: target %s has emits but no action_type", path, t.Name)
 		}
 	}
